@@ -153,10 +153,8 @@ func VerifC11_Registrations() {
 			cfg.settings[tag][c11RelayNames[k]] = c11Setting{fee: bellatrix.ExecutionAddress(vnd.Addr("fee")), gas: vnd.U64("gas")}
 		}
 	}
-	s := &Service{chainTime: vstub.NewChainTime(0), fallbackFeeRecipient: c12Fallback, fallbackGasLimit: 30000000,
-		validatorRegistrationSigner: signer, executionConfig: cfg,
-		latestValidatorRegistrations: map[phase0.BLSPubKey]phase0.Root{}, signedValidatorRegistrations: map[phase0.Root]*apiv1.SignedValidatorRegistration{},
-		secondaryValidatorRegistrationsSubmitters: nil}
+	s := relayNew(vstub.NewChainTime(0))
+	s.validatorRegistrationSigner, s.executionConfig = signer, cfg
 	s.secondaryValidatorRegistrationsSubmitters = append(s.secondaryValidatorRegistrationsSubmitters, nodes[0], nodes[1])
 	if vnd.Bool("node-b.has-vouch-as-its-builder") {
 		nodes[1].echo = s
@@ -212,9 +210,8 @@ func VerifC11_Reuse() {
 	signer := &c11Signer{failFor: map[uint64]bool{}}
 	acc := &vstub.Account{Tag: 1, VIndex: 1, Nm: "acc"}
 	accounts := map[phase0.ValidatorIndex]e2wtypes.Account{1: acc}
-	s := &Service{chainTime: vstub.NewChainTime(0), fallbackFeeRecipient: c12Fallback, fallbackGasLimit: 30000000,
-		validatorRegistrationSigner: signer, executionConfig: cfg,
-		latestValidatorRegistrations: map[phase0.BLSPubKey]phase0.Root{}, signedValidatorRegistrations: map[phase0.Root]*apiv1.SignedValidatorRegistration{}}
+	s := relayNew(vstub.NewChainTime(0))
+	s.validatorRegistrationSigner, s.executionConfig = signer, cfg
 	// four rounds; in each the settings are what they are (changed, changed back, unchanged) and
 	// the signing request may fail. The reference: a registration is reused exactly when its
 	// content is that of the registration sent last for the validator; otherwise it is signed
@@ -276,8 +273,8 @@ func VerifC11_Forwarding() {
 		util.VerifSetBuilderClient(r.name, r)
 	}
 	cfg := &c11Config{unresolvable: map[uint64]bool{}, relays: map[uint64][]string{}, settings: map[uint64]map[string]c11Setting{}}
-	s := &Service{chainTime: vstub.NewChainTime(0), fallbackFeeRecipient: c12Fallback, fallbackGasLimit: 30000000, executionConfig: cfg,
-		controlledValidators: map[phase0.BLSPubKey]struct{}{}}
+	s := relayNew(vstub.NewChainTime(0))
+	s.executionConfig = cfg
 	n := vnd.IntRange("registrations", 1, 2)
 	var in []*types.SignedValidatorRegistration
 	controlled := make([]bool, n)
